@@ -15,9 +15,13 @@
      then  valuesToRender = ToRenderValues(chart, vals)  (error -> fail, nothing stored)
            upgradedRelease = {Chart: chart, Config: vals, ...}
 
-   A revision in the model: its Config, its (possibly rewritten) chart, and the values the
-   templates saw when its manifest was rendered.  Only the success path of the operations is
-   followed (the fake cluster never fails); the failure paths are C01/C03's subject.
+   A revision in the model: its Config, its (possibly rewritten) chart, the values the
+   templates saw when its manifest was rendered, and its status (deployed / superseded /
+   failed).  An operation can be marked as failing after its record was created (the cluster
+   wait returns an error): the new revision is then stored with status failed — with its own
+   Config and chart — and the others keep their status.  Which revision an upgrade carries
+   values forward from is prepareUpgrade's [currentRelease]: the newest revision if it is
+   deployed, else the newest DEPLOYED revision, else (none deployed) the newest revision.
 
    Definitions only; proofs are in ReuseProofs.v. *)
 From Coq Require Import List String Bool Arith.
@@ -26,11 +30,23 @@ Import ListNotations.
 
 Record uflags := mkFlags { reset_values : bool; reuse_values : bool; reset_then_reuse_values : bool }.
 
+Inductive rstat := SDeployed | SSuperseded | SFailed.
+
+Definition rstat_eqb (a b : rstat) : bool :=
+  match a, b with
+  | SDeployed, SDeployed | SSuperseded, SSuperseded | SFailed, SFailed => true
+  | _, _ => false
+  end.
+
 Record revision := mkRev {
   rconfig : vmap;            (* Release.Config *)
   rchart : chart;            (* Release.Chart as stored *)
-  rrendered : vmap           (* .Values of the rendering that produced Release.Manifest *)
+  rrendered : vmap;          (* .Values of the rendering that produced Release.Manifest *)
+  rstatus : rstat            (* Release.Info.Status *)
 }.
+
+Definition set_status (st : rstat) (r : revision) : revision :=
+  mkRev (rconfig r) (rchart r) (rrendered r) st.
 
 Definition set_values (c : chart) (v : vmap) : chart := mkChart (cname c) v (cdeps c).
 
@@ -77,10 +93,11 @@ Fixpoint pd_ok (c : chart) (v : vmap) {struct c} : bool :=
 Definition render (c : chart) (v : vmap) : option vmap :=
   if pd_ok c v then to_render_values c v else None.
 
+(* [fails] = the cluster wait returns an error after the record was created *)
 Inductive op :=
-| OInstall (c : chart) (vals : vmap)
-| OUpgrade (f : uflags) (c : chart) (vals : vmap)
-| ORollback (version : nat).                      (* 0 = the revision before the current one *)
+| OInstall (c : chart) (vals : vmap) (fails : bool)
+| OUpgrade (f : uflags) (c : chart) (vals : vmap) (fails : bool)
+| ORollback (version : nat) (fails : bool).       (* 0 = the revision before the newest one *)
 
 (* the history of one release name: revision n is the n-th element (1-based) *)
 Definition history := list revision.
@@ -88,52 +105,107 @@ Definition history := list revision.
 Definition get_rev (h : history) (n : nat) : option revision :=
   match n with O => None | S i => nth_error h i end.
 
-Definition current (h : history) : option revision := get_rev h (List.length h).
+(* Releases.Last: the newest revision, whatever its status *)
+Definition last_rev (h : history) : option revision := get_rev h (List.length h).
 
-(* one operation: Some new revision (appended) | None = the operation returns an error and
-   stores nothing *)
-Definition step (h : history) (o : op) : option revision :=
+(* Releases.Deployed: the number of the newest revision with status deployed (the list's head
+   is revision n) *)
+Fixpoint deployed_idx_from (n : nat) (sts : list rstat) : option nat :=
+  match sts with
+  | [] => None
+  | st :: t =>
+      match deployed_idx_from (S n) t with
+      | Some i => Some i
+      | None => if rstat_eqb st SDeployed then Some n else None
+      end
+  end.
+
+(* prepareUpgrade's currentRelease, as a revision number, from the statuses alone:
+     lastRelease deployed            -> lastRelease
+     else Deployed(name) if any      -> that one
+     else (last failed / superseded) -> lastRelease *)
+Definition current_idx (sts : list rstat) : option nat :=
+  match sts with
+  | [] => None                                     (* "has no deployed releases" *)
+  | _ =>
+      let n := List.length sts in
+      match nth_error sts (n - 1) with
+      | Some SDeployed => Some n
+      | _ => match deployed_idx_from 1 sts with
+             | Some i => Some i
+             | None => Some n
+             end
+      end
+  end.
+
+Definition current (h : history) : option (nat * revision) :=
+  match current_idx (map rstatus h) with
+  | Some n => match get_rev h n with Some r => Some (n, r) | None => None end
+  | None => None
+  end.
+
+Fixpoint supersede_at (n : nat) (h : history) : history :=        (* revision n (1-based) -> superseded *)
+  match n, h with
+  | _, [] => []
+  | O, _ => h
+  | S O, r :: t => set_status SSuperseded r :: t
+  | S n', r :: t => r :: supersede_at n' t
+  end.
+
+Definition supersede_deployed (h : history) : history :=
+  map (fun r => if rstat_eqb (rstatus r) SDeployed then set_status SSuperseded r else r) h.
+
+(* one operation: the history afterwards and whether the operation returned without error;
+   None = it returned an error before anything was stored *)
+Definition step (h : history) (o : op) : option (history * bool) :=
   match o with
-  | OInstall c vals =>
+  | OInstall c vals fails =>
       match h with
       | [] => match render c vals with
-              | Some r => Some (mkRev vals c r)
+              | Some r => Some ([mkRev vals c r (if fails then SFailed else SDeployed)], negb fails)
               | None => None
               end
       | _ => None                                  (* "cannot re-use a name that is still in use" *)
       end
-  | OUpgrade f c vals =>
+  | OUpgrade f c vals fails =>
       match current h with
-      | None => None                               (* "has no deployed releases" *)
-      | Some cur =>
+      | None => None
+      | Some (n, cur) =>
           match reuse_values_fn f c cur vals with
           | None => None
           | Some (c', vals') =>
               match render c' vals' with
-              | Some r => Some (mkRev vals' c' r)
+              | Some r =>
+                  if fails
+                  then Some ((h ++ [mkRev vals' c' r SFailed])%list, false)             (* failRelease *)
+                  else Some ((supersede_at n h ++ [mkRev vals' c' r SDeployed])%list, true)
               | None => None
               end
           end
       end
-  | ORollback v =>
-      match current h with
+  | ORollback v fails =>
+      match last_rev h with
       | None => None
       | Some _ =>
           let target := match v with O => List.length h - 1 | _ => v end in
           match get_rev h target with
-          | Some t => Some (mkRev (rconfig t) (rchart t) (rrendered t))   (* Config, Chart, Manifest copied *)
+          | Some t =>                                     (* Config, Chart, Manifest copied *)
+              if fails
+              then Some ((h ++ [mkRev (rconfig t) (rchart t) (rrendered t) SFailed])%list, false)
+              else Some ((supersede_deployed h ++ [mkRev (rconfig t) (rchart t) (rrendered t) SDeployed])%list, true)
           | None => None                           (* "release has no N version" *)
           end
       end
   end.
 
-(* a chain of operations: the history afterwards and, per operation, whether it succeeded *)
+(* a chain of operations: the history afterwards and, per operation, whether it returned
+   without error *)
 Fixpoint run_chain (h : history) (ops : list op) : history * list bool :=
   match ops with
   | [] => (h, [])
   | o :: t =>
       match step h o with
-      | Some r => let '(h', oks) := run_chain (h ++ [r])%list t in (h', true :: oks)
+      | Some (h1, ok) => let '(h', oks) := run_chain h1 t in (h', ok :: oks)
       | None => let '(h', oks) := run_chain h t in (h', false :: oks)
       end
   end.
